@@ -75,9 +75,19 @@ func (v *zzVictim) probe(label string) {
 func c12Hostile(nsub, maxPayload int) {
 	v := newZZVictim(nsub)
 	action := sym.U32("action")
-	sym.Assume(action != 3) // terminate is the documented way to remove the object
 	var payload []byte
-	switch sym.Choose("payload-shape", 3) {
+	shape := sym.Choose("payload-shape", 4)
+	if shape != 3 {
+		sym.Assume(action != 3) // terminate naming THIS object is the documented way to remove it
+	}
+	switch shape {
+	case 3:
+		// terminate naming ANOTHER object (any id but this object's own, 0 standing for "self"): refused
+		other := sym.U32("p-terminate-id")
+		sym.Assume(other != 0)
+		sym.Assume(other != 1)
+		sym.Assume(action == 3)
+		payload = zzLE32(other)
 	case 0:
 		// a well-formed (un)registration with arbitrary ids: conflicts with existing users included
 		payload = zzRegisterPayload(sym.U32("p-object"), sym.U32("p-signal"), sym.U64("p-user"))
